@@ -99,7 +99,7 @@ def crc_legacy(msg: str, encode: bool = False) -> int:
         msgnpbin[i : i + ng] = np.bitwise_xor(msgnpbin[i : i + ng], generator)
 
     # last 24 bits
-    msgbin = np.array2string(msgnpbin[-24:], separator="")[1:-1]
+    msgbin = "".join(str(int(b)) for b in msgnpbin[-24:])
     reminder = bin2int(msgbin)
 
     return reminder
